@@ -64,6 +64,27 @@ Theorem C05_deserialize_total : forall raw, deserialize raw <> RErr EOutOfFuel.
 Proof. exact deserialize_total. Qed.
 Print Assumptions C05_deserialize_total.
 
+(* Soundness of the reader on ARBITRARY bytes (shorter than 2^63): whenever it returns fields with at
+   least one input and the writer accepts them (no None, all in range), those fields are a
+   well-formed transaction t, the writer emits exactly serialize t (which reads back as t), and the
+   id is the reversed double hash of serialize t when a non-zero segwit flag was seen, of the given
+   bytes otherwise. Covers non-minimal size prefixes, trailing bytes and any witness layout. *)
+Theorem C05_reader_sound : forall (sha256 : bytes -> bytes) raw p b,
+  N.of_nat (length raw) < MAXSIZE1 -> deserialize raw = ROk p -> p_ins p <> [] -> pser p = ROk b ->
+  (exists t, wf_tx t /\ b = serialize t /\
+             p_version p = Some (tx_version t) /\ p_ins p = map lift_in (tx_ins t) /\
+             p_outs p = map lift_out (tx_outs t) /\ p_locktime p = Some (tx_locktime t) /\
+             deserialize b = ROk (lift t)) /\
+  txid_of_raw sha256 raw = ROk (rev (sha256 (sha256 (if truthy (p_flag p) then b else raw)))).
+Proof. exact parsed_id. Qed.
+Print Assumptions C05_reader_sound.
+
+(* The number of bytes written is the sum of the parts (Transaction.size, base_size, Input/Output.size),
+   for every transaction. *)
+Theorem C05_size : forall t, length (serialize t) = tx_size t.
+Proof. exact serialize_length. Qed.
+Print Assumptions C05_size.
+
 (* non-vacuity: the hypotheses are inhabited, and concrete instances *)
 Example C05_ex_wf : wf_tx sample_tx /\ wf_wits sample_tx sample_wits.
 Proof. exact sample_wf. Qed.
